@@ -19,6 +19,7 @@ import z3
 
 from contracts import cp_common as cc
 from hv import core, extract, pyvc
+from hv import history
 from hv.driver import Bounded, Spec
 
 CPA = cc.CPA
@@ -303,7 +304,7 @@ def units(ctx):
 SPEC = Spec(
     prop=PROP, level="other",
     functions=[(CPA, "CPGraph.critical_path"), (CPA, "CPGraph._validate_graph")],
-    units=units, bounded=[Bounded("path_vs_independent_dp", bounded)],
+    units=units, bounded=[Bounded("path_vs_independent_dp", bounded), Bounded("history_independence", history.stage(PROP, "critical_path_other_window", "cp"))],
     trusted=["networkx.dag_longest_path returns a maximum-weight path of a DAG for the current edge attribute `weight` (assumed dependency contract; cross-checked by the bounded stage)",
              "edge objects: edges[u, v]['object'].begin == u (C08.add_edge_helper.endpoints_and_type) is used as a fact here, so distinct path positions give distinct edge objects",
              "exceptions other than the explicit raise / StopIteration of next() / NetworkXUnfeasible of dag_longest_path / KeyError of self.edges[u, v] are not modelled inside the try blocks"],
